@@ -122,13 +122,11 @@ _orig_check = core.PathCtx.check
 
 
 def _check_with_xcheck(self, label, cond, detail=None):
+    self.last_query = None
     res = _orig_check(self, label, cond, detail)
-    if XCHECK["done"] < XCHECK["budget"] and res.status in ("holds", "violated"):
-        c = core._to_z3_bool(cond)
-        self.solver.push()
-        self.solver.add(z3.Not(c))
-        xcheck_query(self.solver, "unsat" if res.status == "holds" else "sat", label)
-        self.solver.pop()
+    if XCHECK["done"] < XCHECK["budget"] and res.status in ("holds", "violated") and self.last_query is not None:
+        xcheck_query(self.last_query, "unsat" if res.status == "holds" else "sat", label)
+    self.last_query = None
     return res
 
 
